@@ -12,10 +12,10 @@ def _miss(v):
     return v is None or (isinstance(v, float) and v != v)
 
 
-DATA_CARRIERS = ["f64", "list_none", "list_nan", "tuple_nan", "f32", "int", "masked_nan", "masked_junk", "masked_mixed", "masked_int", "series",
+DATA_CARRIERS = ["f64", "list_none", "list_nan", "tuple_nan", "f32", "int", "masked_nan", "masked_junk", "masked_mixed", "masked_int", "masked_fill", "series",
                  "series_shifted", "dask", "object"]
 TIME_CARRIERS = ["dt64ns", "dt64us", "dt64ms", "dt64s", "list_datetime", "list_timestamp", "dtindex", "series",
-                 "dtindex_utc", "series_utc", "epoch_list", "epoch_int", "epoch_float"]
+                 "dtindex_utc", "series_utc", "epoch_list", "epoch_int", "epoch_float", "epoch_int32"]
 SPAN_CARRIERS = ["list", "tuple"]
 
 
@@ -52,6 +52,13 @@ def data(xs, kind="f64", junk=None):
         j = junk if junk is not None else 0.0
         return np.ma.MaskedArray(np.array([j if _miss(v) else float(v) for v in xs], dtype=np.float64),
                                  mask=[_miss(v) for v in xs])
+    if kind == "masked_fill":
+        # a masked array whose fill_value (mere metadata) happens to equal one of its valid, unmasked values
+        pres = [float(v) for v in xs if not _miss(v)]
+        a = np.ma.MaskedArray(np.array(f, dtype=np.float64), mask=[_miss(v) for v in xs])
+        if pres:
+            a.fill_value = pres[len(pres) // 2]
+        return a
     if kind == "masked_int":
         j = int(junk) if junk is not None and abs(junk) < 2 ** 31 else -9999
         return np.ma.MaskedArray(np.array([j if _miss(v) else int(v) for v in xs], dtype=np.int64),
@@ -90,7 +97,9 @@ def fractional(ts):
 def time_applicable(kind, ts):
     """datetime64[s] and integer epoch carriers cannot hold sub-second instants."""
     if fractional(ts):
-        return kind not in ("dt64s", "epoch_int")
+        return kind not in ("dt64s", "epoch_int", "epoch_int32")
+    if kind == "epoch_int32":
+        return len(ts) > 0 and min(ts) >= 0 and max(ts) < 2 ** 32
     return True
 
 
@@ -121,6 +130,9 @@ def time(ts, kind="dt64ns"):
         return [float(t) for t in ts] if fractional(ts) else [int(t) for t in ts]
     if kind == "epoch_int":
         return np.array(ts, dtype="int64")
+    if kind == "epoch_int32":
+        # 32-bit epoch seconds (the usual storage type of netCDF time variables)
+        return np.array(ts, dtype="int64").astype("int32" if max(ts) < 2 ** 31 else "uint32")
     if kind == "epoch_float":
         return np.array(ts, dtype="float64")
     raise ValueError(kind)
